@@ -27,7 +27,7 @@ inductive Act : Nat → Nat → RMap → Caller → Nat → Nat → RMap → Cal
       (h : c.msg.epoch ≤ ie) : Act u ie im c ie ie im { c with pc := .done .oldEpoch }
   | install {u ie : Nat} {im : RMap} {c : Caller} (hpc : c.pc = .writeLock)
       (h : c.msg.force = true ∨ ie < c.msg.epoch) :
-      Act u ie im c u c.msg.epoch (buildMap c.reused c.msg) { c with pc := .done .ok }
+      Act u ie im c c.msg.epoch c.msg.epoch (buildMap c.reused c.msg) { c with pc := .done .ok }
 
 theorem act_iff (u ie : Nat) (im : RMap) (c : Caller) (u' ie' : Nat) (im' : RMap) (c' : Caller) :
     act u ie im c = some (u', ie', im', c') ↔ Act u ie im c u' ie' im' c' := by
